@@ -366,6 +366,14 @@ func (c *PathCtx) prepareCall(fr *frame, site ssa.Instruction, call *ssa.CallCom
 		fn = v
 	} else {
 		recv := v.(Iface)
+		if recv.T == sinkObjType {
+			sig := call.Method.Type().(*types.Signature)
+			fn = &NativeFunc{Name: "sink." + call.Method.Name(), Fn: func(c *PathCtx, fr *frame, args []Value) Value { return sinkResultOf(sig.Results()) }}
+			for _, a := range call.Args {
+				args = append(args, fr.get(a))
+			}
+			return
+		}
 		if recv.T == nil {
 			panic(targetPanic{msg: "invalid memory address or nil pointer dereference (method " + call.Method.Name() + " on nil interface)", pos: c.where(fr, site)})
 		}
@@ -494,15 +502,34 @@ func (c *PathCtx) runInitLenient(fr *frame) (res Value) {
 	return fr.result
 }
 
-func (c *PathCtx) sinkResult(fn *ssa.Function) Value {
-	res := fn.Signature.Results()
+// sinkObjType marks interface values produced by sinks (loggers, metric vectors):
+// invoking any method on them is again a sink, so chains like
+// metrics.X.WithLabelValues(..).Set(..) do not look like nil dereferences.
+var sinkObjType = types.NewNamed(types.NewTypeName(token.NoPos, nil, "symgo.sinkobject", nil), types.NewStruct(nil, nil), nil)
+
+func sinkZero(t types.Type) Value {
+	if _, ok := t.Underlying().(*types.Interface); ok && !isErrorType(t) {
+		return Iface{T: sinkObjType}
+	}
+	return zero(t)
+}
+
+func sinkResultOf(res *types.Tuple) Value {
 	switch res.Len() {
 	case 0:
 		return nil
 	case 1:
-		return zero(res.At(0).Type())
+		return sinkZero(res.At(0).Type())
 	}
-	return zero(res)
+	out := make(Tuple, res.Len())
+	for i := range out {
+		out[i] = sinkZero(res.At(i).Type())
+	}
+	return out
+}
+
+func (c *PathCtx) sinkResult(fn *ssa.Function) Value {
+	return sinkResultOf(fn.Signature.Results())
 }
 
 func runFrame(fr *frame) {
